@@ -362,8 +362,8 @@ SEEDS = [
     Seed("walk-misses-negate", "fault", "backends/base", "            elif node[0] == 'negate':\n                _walk(node[1])\n", "", rule="C05-R3"),
     Seed("walk-right-first", "fault", "backends/base", "                _walk(node[2])\n                _walk(node[3])", "                _walk(node[3])\n                _walk(node[2])", rule="C05-R3"),
     Seed("admit-remainder", "fault", "compiler", "_ARITH_OPS = {'+', '-', '*', '%', '^'}", "_ARITH_OPS = {'+', '-', '*', '%', '^', '!'}", rule="C05-R3",
-         more=[("            py_op = {'+': '+', '-': '-', '*': '*', '%': '/', '^': '**'}.get(op)\n            if py_op is None:\n                return None\n            return f'({l}{py_op}{r})'\n\n        if node_type == 'cmp':\n            op, left, right = ir[1], ir[2], ir[3]\n            l = self._ir_to_source(left)\n            r = self._ir_to_source(right)\n            if l is None or r is None:\n                return None\n            py_cmp = {'=': '==', '>': '>', '<': '<'}.get(op)\n            if py_cmp is None:\n                return None\n            return f'(({l}{py_cmp}{r})*1)'\n\n        if node_type == 'negate':\n            child = self._ir_to_source(ir[1])\n            if child is None:\n                return None\n            return f'(-{child})'\n\n        if node_type == 'reduce':\n            op, arg = ir[1], ir[2]\n            arg_src = self._ir_to_source(arg)\n            if arg_src is None:\n                return None\n            method = {'+': 'np.add.reduce'",
-                "            py_op = {'+': '+', '-': '-', '*': '*', '%': '/', '^': '**'}[op]\n            return f'({l}{py_op}{r})'\n\n        if node_type == 'cmp':\n            op, left, right = ir[1], ir[2], ir[3]\n            l = self._ir_to_source(left)\n            r = self._ir_to_source(right)\n            if l is None or r is None:\n                return None\n            py_cmp = {'=': '==', '>': '>', '<': '<'}.get(op)\n            if py_cmp is None:\n                return None\n            return f'(({l}{py_cmp}{r})*1)'\n\n        if node_type == 'negate':\n            child = self._ir_to_source(ir[1])\n            if child is None:\n                return None\n            return f'(-{child})'\n\n        if node_type == 'reduce':\n            op, arg = ir[1], ir[2]\n            arg_src = self._ir_to_source(arg)\n            if arg_src is None:\n                return None\n            method = {'+': 'np.add.reduce'")]),
+         more=[("backends/numpy_backend", "            py_op = {'+': '+', '-': '-', '*': '*', '%': '/', '^': '**'}.get(op)\n            if py_op is None:\n                return None\n            return f'({l}{py_op}{r})'",
+                "            py_op = {'+': '+', '-': '-', '*': '*', '%': '/', '^': '**'}[op]\n            return f'({l}{py_op}{r})'")]),
     Seed("divide-as-floordiv", "fault", "backends/numpy_backend", "            py_op = {'+': '+', '-': '-', '*': '*', '%': '/', '^': '**'}.get(op)", "            py_op = {'+': '+', '-': '-', '*': '*', '%': '//', '^': '**'}.get(op)", rule="C05-R4"),
     Seed("swap-lt-gt", "fault", "backends/numpy_backend", "            py_cmp = {'=': '==', '>': '>', '<': '<'}.get(op)", "            py_cmp = {'=': '==', '>': '<', '<': '>'}.get(op)", rule="C05-R4"),
     Seed("add-special-case", "fault", "dyads", "    return backend.np.add(a, b)", "    if backend.is_number(a) and backend.is_number(b) and a == 0:\n        return b\n    return backend.np.add(a, b)", rule="C05-R4"),
